@@ -122,7 +122,7 @@ void oracle_bad_request(const Op& op) {
   const int kind = (int)op.a;
   const size_t n = (size_t)op.b;          // a small well-formed size used where one is needed
   Block* b = (op.slot >= 0 && op.slot < (int)H.slots.size()) ? H.slots[op.slot] : nullptr;
-  const bool needs_block = (kind >= 15 && kind <= 22);
+  const bool needs_block = (kind >= 15 && kind <= 22) || (kind >= 30 && kind <= 33);
   if (needs_block && !b) { H.ops_noop++; return; }
   mi_heap_t* dh = heap_ptr(T->deflt);
   size_t pages0 = 0; const size_t used0 = dh ? heap_used_sum(dh, &pages0) : 0;
@@ -163,6 +163,10 @@ void oracle_bad_request(const Op& op) {
     case 27: r = mi_malloc_aligned_at(n, (size_t)64 << 20, 64); break;      // offset != 0 beyond half a segment: documented not to be supported
     case 28: { mi_heap_t* h = dh; r = h ? mi_heap_calloc(h, SIZE_MAX / 8, 16) : nullptr; break; }
     case 29: r = mi_zalloc_aligned_at(HUGE1, 16, 8); break;
+    case 30: r = mi_realloc_aligned(p, n + 100, 0); break;                // alignment zero
+    case 31: r = mi_realloc_aligned(p, n + 100, 3); break;                // not a power of two, below the word size
+    case 32: r = mi_realloc_aligned_at(p, n + 100, 48, 8); break;
+    case 33: r = mi_recalloc_aligned(p, n + 1, 2, 6); break;
     default: H.ops_noop++; return;
   }
   (void)want_null;
